@@ -11,6 +11,13 @@ def x_obligations(tier):
     for pre, suf, alt in commas:
         o.append(Obl(f"C10-comma[{pre!r}+t,{alt}+{suf!r}]", M, "comma", env={"VF_PRE": pre, "VF_SUF": suf, "VF_ALT": alt, "VF_N": str(n)}, timeout=T, path_timeout=200, family="C10-unfold",
                      bound=f"token t with len<={n}, concrete alternative {alt!r}"))
+    # lists written with a blank after the comma ('maya, mov'), the symbolic member (possibly an alias) not in first position
+    for pre, alt, join in [("h/a/x/v1/", "g", ", "), ("h/s/**/", "m", ", "), ("h/a/x/*?ext=", "g", ", "), ("h/a/x/v1/", "g", ",")]:
+        o.append(Obl(f"C10-comma-last[{pre!r}+{alt}{join!r}t]", M, "comma_last", env={"VF_PRE": pre, "VF_ALT": alt, "VF_JOIN": join, "VF_N": "1"}, timeout=T, path_timeout=200, family="C10-unfold",
+                     bound=f"{pre!r} + {alt!r} + {join!r} + t, token t with len<=1 (an alias or a member)"))
+    (s_, epre_, esuf_, fixed_, junk_, jpre_, jsuf_) = ("h/a/x,*", "h/a/", "", "h/a/x;h/a/y/v1", "@/H/A/x/vv", "/H/A/x/v1/x_v1.", "QQ")
+    o.append(Obl(f"C10-paths[{s_}]", "xhair.obl.c11", "paths_agree", env={"VF_SEARCH": s_, "VF_EPRE": epre_, "VF_ESUF": esuf_, "VF_FIXED": fixed_, "VF_JUNK": junk_, "VF_JPRE": jpre_, "VF_JSUF": jsuf_},
+                 timeout=T, path_timeout=200, family="C10-paths", bound="FindInPaths (glob model) on an or-list whose alternatives overlap: no duplicates, same answer as the list search"))
     aliases = [] if tier == "quick" else [("h/a/", "/v1/y", "/v1/m;/v1/b"), ("h/s/q1/", "/z", "/c;/j"), ("h/", "/**/y", "/**/m;/**/b"), ("h/s/", "/**?ext=z", "/**?ext=c;/**?ext=j")]
     for pre, suf, der in aliases:
         o.append(Obl(f"C10-alias[{pre!r}+t+{suf!r}]", M, "alias", env={"VF_PRE": pre, "VF_SUF": suf, "VF_DERIVED": der, "VF_N": str(n)}, timeout=T, path_timeout=200, family="C10-unfold", bound=f"token t with len<={n}"))
@@ -21,6 +28,7 @@ def x_obligations(tier):
               ("h/s/q1/v1/**", "h/s/q1/v1/*;h/s/q1/v1/*/*", "h/s/q1/v1", ""), ("h/a/x/*?ext=y", "h/a/x/*?ext=m;h/a/x/*?ext=b", "h/a/x/v1/", ""),
               ("h/s/q1/v1/**/c", "h/s/q1/v1/c;h/s/q1/v1/*/c", "h/s/q1/v1/", ""), ("h/a/x/v1/m/**", "h/a/x/v1/m", "h/a/x/v1/", ""),
               ("h/a/*/v1,v2", "h/a/*/v1;h/a/*/v2", "h/a/x/v", "")]
+    unions += [("h/s/**/o/c", "h/s/*/*/o/c", "h/s/q1/v1/o/", ""), ("h/**/v1/o/c", "h/*/*/v1/o/c", "h/s/q1/v1/o/", "")]      # '**' followed by two or three segments
     for s, der, epre, leaf in unions:
         o.append(Obl(f"C10-list-union[{s}]", M, "list_union", env={"VF_SEARCH": s, "VF_DERIVED": der, "VF_EPRE": epre, "VF_LEAF": leaf, "VF_N": "2" if tier == "quick" else "3"}, timeout=T, path_timeout=200, family="C10-list",
                      bound=f"list = [{epre!r}+a, {epre!r}+b], every a, b"))
